@@ -7,6 +7,7 @@ and the vertex/edge characterisation of every non-iterative operation.
 (Closure, reachability and topological sorting are in `Proofs/UGraphClosure`, `Proofs/UGraphTopSort`.)
 -/
 set_option linter.unnecessarySeqFocus false
+set_option linter.unusedSimpArgs false
 namespace Scryer.UGraph
 
 /-! ## strictly ascending lists -/
@@ -304,5 +305,614 @@ theorem graph_ext : ∀ {g h : Graph}, Sorted (vertices g) → Sorted (vertices 
         rcases this.2 (Or.inr e) with h1 | h1
         · have := kh.1 _ e.src; omega
         · exact h1
+
+/-! ## edges / p_to_s_group -/
+
+theorem sToPGraph1_eq (ns : List Nat) (v : Nat) (rest : List (Nat × Nat)) :
+    sToPGraph1 ns v rest = ns.map (fun n => (v, n)) ++ rest := by
+  induction ns with
+  | nil => rfl
+  | cons n ns ih => simp [sToPGraph1, ih]
+
+theorem mem_edges {g : Graph} {x y : Nat} : (x, y) ∈ edges g ↔ Edge g x y := by
+  induction g with
+  | nil => simp [edges]
+  | cons p g ih => obtain ⟨v, ns⟩ := p; simp [edges, sToPGraph1_eq, ih]; grind
+
+/-- `edges/2` lists the edges in standard order without duplicates. -/
+theorem sorted_edges {g : Graph} (hk : Sorted (vertices g)) (hn : ∀ p ∈ g, Sorted p.2) :
+    (edges g).Pairwise EdgeLt := by
+  induction g with
+  | nil => simp [edges]
+  | cons p g ih =>
+    obtain ⟨v, ns⟩ := p
+    simp [sorted_cons] at hk
+    have hns : Sorted ns := hn (v, ns) (by simp)
+    simp only [edges, sToPGraph1_eq]
+    rw [List.pairwise_append]
+    refine ⟨?_, ih hk.2 (fun p hp => hn p (by simp [hp])), ?_⟩
+    · rw [List.pairwise_map]
+      exact List.Pairwise.imp (fun h => Or.inr ⟨rfl, h⟩) hns
+    · rintro ⟨a, b⟩ ha ⟨c, d⟩ hc
+      simp at ha
+      have := hk.1 c (mem_edges.1 hc).src
+      left; simp; omega
+
+theorem mem_pToSVertices {es : List (Nat × Nat)} {v : Nat} :
+    v ∈ pToSVertices es ↔ ∃ e ∈ es, v = e.1 ∨ v = e.2 := by
+  induction es with
+  | nil => simp [pToSVertices]
+  | cons e es ih => obtain ⟨a, z⟩ := e; simp [pToSVertices, ih]; grind
+
+theorem pToSGroup1_split (es : List (Nat × Nat)) (v : Nat) :
+    (pToSGroup1 es v).1.map (fun n => (v, n)) ++ (pToSGroup1 es v).2 = es := by
+  induction es with
+  | nil => simp [pToSGroup1]
+  | cons e es ih =>
+    obtain ⟨a, b⟩ := e
+    by_cases h : a = v
+    · subst h; simp [pToSGroup1, consFst, ih]
+    · simp [pToSGroup1, h]
+
+theorem pToSGroup1_head (es : List (Nat × Nat)) (v : Nat) :
+    ∀ e, (pToSGroup1 es v).2.head? = some e → e.1 ≠ v := by
+  induction es with
+  | nil => simp [pToSGroup1]
+  | cons e es ih =>
+    obtain ⟨a, b⟩ := e
+    by_cases h : a = v
+    · subst h; simpa [pToSGroup1, consFst] using ih
+    · simp [pToSGroup1, h]
+
+theorem vertices_pToSGroup (vs : List Nat) (es : List (Nat × Nat)) : vertices (pToSGroup vs es) = vs := by
+  induction vs generalizing es with
+  | nil => rfl
+  | cons v vs ih => simp [pToSGroup, ih]
+
+theorem pToSGroup_spec {vs : List Nat} {es : List (Nat × Nat)} (hvs : Sorted vs) (hes : es.Pairwise EdgeLt)
+    (hsrc : ∀ e ∈ es, e.1 ∈ vs) :
+    (∀ x y, Edge (pToSGroup vs es) x y ↔ (x, y) ∈ es) ∧ ∀ p ∈ pToSGroup vs es, Sorted p.2 := by
+  induction vs generalizing es with
+  | nil =>
+    cases es with
+    | nil => simp [pToSGroup]
+    | cons e es => have := hsrc e (by simp); simp at this
+  | cons v vs ih =>
+    have hsplit := pToSGroup1_split es v
+    have hhead := pToSGroup1_head es v
+    simp only [pToSGroup]
+    generalize pToSGroup1 es v = r at hsplit hhead ⊢
+    obtain ⟨ns, rest⟩ := r
+    simp only at hsplit hhead ⊢
+    subst hsplit
+    rw [sorted_cons] at hvs
+    rw [List.pairwise_append] at hes
+    obtain ⟨hes1, hes2, hes3⟩ := hes
+    -- all sources in `rest` are in `vs`
+    have hgt : ∀ e ∈ rest, v < e.1 := by
+      intro e he
+      cases rest with
+      | nil => simp at he
+      | cons e0 rest =>
+        have h0 : e0.1 ≠ v := hhead e0 rfl
+        have h0' : e0.1 ∈ v :: vs := hsrc e0 (by simp)
+        have h0'' : v < e0.1 := by
+          simp at h0'; rcases h0' with h | h
+          · exact absurd h h0
+          · exact hvs.1 _ h
+        simp at he
+        rcases he with rfl | he
+        · exact h0''
+        · rw [List.pairwise_cons] at hes2
+          have := hes2.1 e he
+          simp [EdgeLt] at this; omega
+    have hrest : ∀ e ∈ rest, e.1 ∈ vs := by
+      intro e he
+      have h1 : e.1 ∈ v :: vs := hsrc e (by simp [he])
+      have h2 := hgt e he
+      simp at h1; rcases h1 with h | h
+      · omega
+      · exact h
+    obtain ⟨ih1, ih2⟩ := ih hvs.2 hes2 hrest
+    constructor
+    · intro x y
+      simp [ih1]
+      grind
+    · intro p hp
+      simp at hp
+      rcases hp with rfl | hp
+      · simp
+        rw [List.pairwise_map] at hes1
+        exact List.Pairwise.imp (fun h => by simpa [EdgeLt] using h) hes1
+      · exact ih2 p hp
+
+
+/-! ## vertices_edges_to_ugraph, p_to_s_graph, transpose -/
+
+theorem vetu_vertices {vs : List Nat} {es : List (Nat × Nat)} {v : Nat} :
+    v ∈ vertices (verticesEdgesToUgraph vs es) ↔ v ∈ vs ∨ ∃ e ∈ es, v = e.1 ∨ v = e.2 := by
+  simp [verticesEdgesToUgraph, vertices_pToSGroup, mem_pToSVertices]
+
+theorem vetu_spec (vs : List Nat) (es : List (Nat × Nat)) :
+    (∀ x y, Edge (verticesEdgesToUgraph vs es) x y ↔ (x, y) ∈ es) ∧ WF (verticesEdgesToUgraph vs es) := by
+  have h := pToSGroup_spec (vs := sortNat (vs ++ pToSVertices (sortEdges es))) (es := sortEdges es)
+    (sorted_sortNat _) (sorted_sortEdges es) (by
+      intro e he
+      simp [mem_pToSVertices]
+      right; exact ⟨e.1, e.2, by simpa using he, Or.inl rfl⟩)
+  have hE : ∀ x y, Edge (verticesEdgesToUgraph vs es) x y ↔ (x, y) ∈ es := by
+    intro x y; simpa [verticesEdgesToUgraph] using h.1 x y
+  refine ⟨hE, wf_iff.2 ⟨?_, ?_, ?_⟩⟩
+  · simp only [verticesEdgesToUgraph, vertices_pToSGroup]; exact sorted_sortNat _
+  · exact h.2
+  · intro x y e
+    rw [vetu_vertices]
+    right; exact ⟨(x, y), (hE x y).1 e, Or.inr rfl⟩
+
+theorem pToSGraph_eq (es : List (Nat × Nat)) : pToSGraph es = verticesEdgesToUgraph [] es := rfl
+
+theorem mem_flipEdges {es : List (Nat × Nat)} {x y : Nat} : (x, y) ∈ flipEdges es ↔ (y, x) ∈ es := by
+  induction es with
+  | nil => simp [flipEdges]
+  | cons e es ih => obtain ⟨a, b⟩ := e; simp [flipEdges, ih]; grind
+
+theorem transpose_vertices {g : Graph} (h : WF g) : vertices (transposeUgraph g) = vertices g := by
+  apply sorted_ext (vetu_spec _ _).2.keys h.keys
+  intro v
+  simp only [transposeUgraph, vetu_vertices]
+  constructor
+  · rintro (h1 | ⟨⟨a, b⟩, he, h1 | h1⟩)
+    · exact h1
+    · rw [mem_flipEdges, mem_edges] at he; simp at h1; subst h1; exact h.dst he
+    · rw [mem_flipEdges, mem_edges] at he; simp at h1; subst h1; exact he.src
+  · exact Or.inl
+
+theorem transpose_edge {g : Graph} {x y : Nat} : Edge (transposeUgraph g) x y ↔ Edge g y x := by
+  simp [transposeUgraph, (vetu_spec _ _).1, mem_flipEdges, mem_edges]
+
+/-! ## add_vertices -/
+
+theorem vertices_addEmptyVertices (l : List Nat) : vertices (addEmptyVertices l) = l := by
+  induction l with
+  | nil => rfl
+  | cons a l ih => simp [addEmptyVertices, ih]
+
+theorem mem_addEmptyVertices {l : List Nat} {p : Nat × List Nat} (h : p ∈ addEmptyVertices l) : p.2 = [] := by
+  induction l with
+  | nil => simp [addEmptyVertices] at h
+  | cons a l ih => simp [addEmptyVertices] at h; rcases h with rfl | h; · rfl
+                   exact ih h
+
+theorem vertices_addVerticesToSGraph (l : List Nat) (g : Graph) :
+    vertices (addVerticesToSGraph l g) = ordUnion l (vertices g) := by
+  fun_induction addVerticesToSGraph l g <;> simp_all [vertices_addEmptyVertices, ordUnion]
+
+theorem mem_addVerticesToSGraph {l : List Nat} {g : Graph} {p : Nat × List Nat}
+    (h : p ∈ addVerticesToSGraph l g) : p ∈ g ∨ p.2 = [] := by
+  fun_induction addVerticesToSGraph l g <;> simp_all
+  · exact mem_addEmptyVertices h
+  all_goals grind
+
+theorem edge_addVerticesToSGraph {l : List Nat} {g : Graph} {x y : Nat} :
+    Edge (addVerticesToSGraph l g) x y ↔ Edge g x y := by
+  constructor
+  · rintro ⟨ns, h1, h2⟩
+    rcases mem_addVerticesToSGraph h1 with h | h
+    · exact ⟨ns, h, h2⟩
+    · simp at h; subst h; simp at h2
+  · intro h
+    fun_induction addVerticesToSGraph l g <;> simp_all
+    all_goals grind
+
+theorem addVerticesToSGraph_spec {l : List Nat} {g : Graph} (hl : Sorted l) (hg : WF g) :
+    WF (addVerticesToSGraph l g) ∧ (∀ v, v ∈ vertices (addVerticesToSGraph l g) ↔ v ∈ vertices g ∨ v ∈ l) ∧
+    ∀ x y, Edge (addVerticesToSGraph l g) x y ↔ Edge g x y := by
+  have hv : ∀ v, v ∈ vertices (addVerticesToSGraph l g) ↔ v ∈ vertices g ∨ v ∈ l := by
+    intro v; rw [vertices_addVerticesToSGraph, mem_ordUnion, or_comm]
+  refine ⟨wf_iff.2 ⟨?_, ?_, ?_⟩, hv, fun x y => edge_addVerticesToSGraph⟩
+  · rw [vertices_addVerticesToSGraph]; exact sorted_ordUnion hl hg.keys
+  · intro p hp
+    rcases mem_addVerticesToSGraph hp with h | h
+    · exact hg.nbrs p h
+    · rw [h]; exact sorted_nil
+  · intro x y e
+    rw [hv]; left; exact hg.dst (edge_addVerticesToSGraph.1 e)
+
+/-! ## del_vertices -/
+
+theorem vertices_delRemaining (g : Graph) (v1 : List Nat) : vertices (delRemaining g v1) = vertices g := by
+  fun_induction delRemaining g v1 <;> simp_all
+
+theorem mem_delRemaining {g : Graph} {v1 : List Nat} {x : Nat} {ns : List Nat} :
+    (x, ns) ∈ delRemaining g v1 ↔ ∃ e, (x, e) ∈ g ∧ ns = ordSubtract e v1 := by
+  fun_induction delRemaining g v1 <;> simp_all
+  grind
+
+theorem vertices_delVerticesAuxFixed (g : Graph) (vs v1 : List Nat) :
+    vertices (delVerticesAuxFixed g vs v1) = ordSubtract (vertices g) vs := by
+  fun_induction delVerticesAuxFixed g vs v1 <;> simp_all [vertices_delRemaining, ordSubtract]
+
+theorem mem_delVerticesAuxFixed {g : Graph} {vs v1 : List Nat} (hg : Sorted (vertices g)) (hvs : Sorted vs)
+    {x : Nat} {ns : List Nat} :
+    (x, ns) ∈ delVerticesAuxFixed g vs v1 ↔ ∃ e, (x, e) ∈ g ∧ x ∉ vs ∧ ns = ordSubtract e v1 := by
+  fun_induction delVerticesAuxFixed g vs v1
+  · simp [mem_delRemaining]
+  · simp
+  · rename_i v e g v0 vs v1 hlt ih
+    simp [sorted_cons] at hg hvs
+    have ih := ih hg.2 (by simp [sorted_cons]; exact hvs)
+    simp [ih]
+    constructor
+    · rintro (⟨rfl, rfl⟩ | ⟨e', h1, h2, h3⟩)
+      · refine ⟨e, Or.inl ⟨rfl, rfl⟩, ⟨by omega, ?_⟩, rfl⟩
+        intro hx; have := hvs.1 _ hx; omega
+      · exact ⟨e', Or.inr h1, h2, h3⟩
+    · rintro ⟨e', (⟨rfl, rfl⟩ | h1), h2, h3⟩
+      · exact Or.inl ⟨rfl, h3⟩
+      · exact Or.inr ⟨e', h1, h2, h3⟩
+  · rename_i v e g vs v1 hlt ih
+    simp [sorted_cons] at hg hvs
+    have ih := ih hg.2 hvs.2
+    simp [ih]
+    constructor
+    · rintro ⟨e', h1, h2, h3⟩
+      refine ⟨e', Or.inr h1, ⟨?_, h2⟩, h3⟩
+      have := hg.1 _ (mem_vertices_of_mem h1); omega
+    · rintro ⟨e', (⟨rfl, rfl⟩ | h1), h2, h3⟩
+      · simp at h2
+      · exact ⟨e', h1, h2.2, h3⟩
+  · rename_i v e g v0 vs v1 hlt hne ih
+    simp [sorted_cons] at hg hvs
+    have ih := ih (by simp [sorted_cons]; exact hg) hvs.2
+    simp [ih]
+    constructor
+    · rintro ⟨e', h1, h2, h3⟩
+      refine ⟨e', h1, ⟨?_, h2⟩, h3⟩
+      rcases h1 with ⟨rfl, rfl⟩ | h1
+      · omega
+      · have := hg.1 _ (mem_vertices_of_mem h1); omega
+    · rintro ⟨e', h1, h2, h3⟩
+      exact ⟨e', h1, h2.2, h3⟩
+
+/-- the literal algorithm agrees with the repaired one when every vertex to delete is in the graph. -/
+theorem delVerticesAux_eq_fixed {g : Graph} {vs v1 : List Nat} (hg : Sorted (vertices g)) (hvs : Sorted vs)
+    (hsub : ∀ v ∈ vs, v ∈ vertices g) : delVerticesAux g vs v1 = delVerticesAuxFixed g vs v1 := by
+  fun_induction delVerticesAux g vs v1
+  · simp [delVerticesAuxFixed]
+  · simp [delVerticesAuxFixed]
+  · rename_i v e g v0 vs v1 hlt ih
+    simp [sorted_cons] at hg hvs
+    simp [delVerticesAuxFixed, hlt]
+    apply ih hg.2 (by simp [sorted_cons]; exact hvs)
+    intro w hw
+    have h1 := hsub w hw
+    simp at hw h1
+    rcases hw with rfl | hw
+    · rcases h1 with h1 | h1
+      · omega
+      · exact h1
+    · have := hvs.1 _ hw
+      rcases h1 with h1 | h1
+      · omega
+      · exact h1
+  · rename_i v e g vs v1 hlt ih
+    simp [sorted_cons] at hg hvs
+    simp [delVerticesAuxFixed]
+    apply ih hg.2 hvs.2
+    intro w hw
+    have h1 := hsub w (by simp [hw])
+    have := hvs.1 _ hw
+    simp at h1
+    rcases h1 with h1 | h1
+    · omega
+    · exact h1
+  · rename_i v e g v0 vs v1 hlt hne ih
+    exfalso
+    simp [sorted_cons] at hg
+    have h1 := hsub v0 (by simp)
+    simp at h1
+    rcases h1 with h1 | h1
+    · omega
+    · have := hg.1 _ h1; omega
+
+
+theorem delVerticesFixed_spec {g : Graph} (hg : WF g) (vs : List Nat) :
+    WF (delVerticesFixed g vs) ∧ (∀ v, v ∈ vertices (delVerticesFixed g vs) ↔ v ∈ vertices g ∧ v ∉ vs) ∧
+    ∀ x y, Edge (delVerticesFixed g vs) x y ↔ Edge g x y ∧ x ∉ vs ∧ y ∉ vs := by
+  unfold delVerticesFixed
+  simp only
+  split
+  · rename_i h
+    rw [sortNat_eq_nil] at h
+    subst h
+    simp
+    exact hg
+  · have hs := sorted_sortNat vs
+    have hv : ∀ v, v ∈ vertices (delVerticesAuxFixed g (sortNat vs) (sortNat vs)) ↔ v ∈ vertices g ∧ v ∉ vs := by
+      intro v
+      rw [vertices_delVerticesAuxFixed, mem_ordSubtract hg.keys hs]; simp
+    have he : ∀ x y, Edge (delVerticesAuxFixed g (sortNat vs) (sortNat vs)) x y ↔ Edge g x y ∧ x ∉ vs ∧ y ∉ vs := by
+      intro x y
+      simp only [Edge, mem_delVerticesAuxFixed hg.keys hs]
+      constructor
+      · rintro ⟨ns, ⟨e, h1, h2, rfl⟩, h3⟩
+        rw [mem_ordSubtract (hg.nbrs _ h1) hs] at h3
+        simp at h2 h3
+        exact ⟨⟨e, h1, h3.1⟩, h2, h3.2⟩
+      · rintro ⟨⟨e, h1, h3⟩, h2, h4⟩
+        refine ⟨_, ⟨e, h1, by simpa using h2, rfl⟩, ?_⟩
+        rw [mem_ordSubtract (hg.nbrs _ h1) hs]
+        simp [h3, h4]
+    refine ⟨wf_iff.2 ⟨?_, ?_, ?_⟩, hv, he⟩
+    · rw [vertices_delVerticesAuxFixed]; exact sorted_ordSubtract hg.keys
+    · rintro ⟨x, ns⟩ hp
+      rw [mem_delVerticesAuxFixed hg.keys hs] at hp
+      obtain ⟨e, h1, _, rfl⟩ := hp
+      exact sorted_ordSubtract (hg.nbrs _ h1)
+    · intro x y e
+      rw [he] at e
+      rw [hv]; exact ⟨hg.dst e.1, e.2.2⟩
+
+theorem delVertices_eq_fixed {g : Graph} (hg : Sorted (vertices g)) {vs : List Nat}
+    (hsub : ∀ v ∈ vs, v ∈ vertices g) : delVertices g vs = delVerticesFixed g vs := by
+  unfold delVertices delVerticesFixed
+  simp only
+  split
+  · rfl
+  · exact delVerticesAux_eq_fixed hg (sorted_sortNat vs) (by simpa using hsub)
+
+/-! ## ugraph_union / add_edges -/
+
+theorem vertices_ugraphUnion (g1 g2 : Graph) :
+    vertices (ugraphUnion g1 g2) = ordUnion (vertices g1) (vertices g2) := by
+  fun_induction ugraphUnion g1 g2 <;> simp_all [ordUnion]
+
+theorem edge_ugraphUnion {g1 g2 : Graph} {x y : Nat} :
+    Edge (ugraphUnion g1 g2) x y ↔ Edge g1 x y ∨ Edge g2 x y := by
+  fun_induction ugraphUnion g1 g2 <;> simp_all [mem_ordUnion]
+  all_goals grind
+
+theorem nbrs_ugraphUnion {g1 g2 : Graph} (h1 : ∀ p ∈ g1, Sorted p.2) (h2 : ∀ p ∈ g2, Sorted p.2) :
+    ∀ p ∈ ugraphUnion g1 g2, Sorted p.2 := by
+  fun_induction ugraphUnion g1 g2 <;> simp_all
+  case case3 => exact ⟨sorted_ordUnion h1.1 h2.1, by assumption⟩
+  all_goals assumption
+
+theorem ugraphUnion_spec {g1 g2 : Graph} (h1 : WF g1) (h2 : WF g2) :
+    WF (ugraphUnion g1 g2) ∧ (∀ v, v ∈ vertices (ugraphUnion g1 g2) ↔ v ∈ vertices g1 ∨ v ∈ vertices g2) ∧
+    ∀ x y, Edge (ugraphUnion g1 g2) x y ↔ Edge g1 x y ∨ Edge g2 x y := by
+  have hv : ∀ v, v ∈ vertices (ugraphUnion g1 g2) ↔ v ∈ vertices g1 ∨ v ∈ vertices g2 := by
+    intro v; rw [vertices_ugraphUnion, mem_ordUnion]
+  refine ⟨wf_iff.2 ⟨?_, nbrs_ugraphUnion h1.nbrs h2.nbrs, ?_⟩, hv, fun x y => edge_ugraphUnion⟩
+  · rw [vertices_ugraphUnion]; exact sorted_ordUnion h1.keys h2.keys
+  · intro x y e
+    rw [hv]
+    rcases edge_ugraphUnion.1 e with e | e
+    · exact Or.inl (h1.dst e)
+    · exact Or.inr (h2.dst e)
+
+/-! ## graph_subtract / del_edges -/
+
+theorem vertices_graphSubtract (g1 g2 : Graph) : vertices (graphSubtract g1 g2) = vertices g1 := by
+  fun_induction graphSubtract g1 g2 <;> simp_all
+
+theorem nbrs_graphSubtract {g1 g2 : Graph} (h1 : ∀ p ∈ g1, Sorted p.2) :
+    ∀ p ∈ graphSubtract g1 g2, Sorted p.2 := by
+  fun_induction graphSubtract g1 g2 <;> simp_all
+  case case3 => exact ⟨sorted_ordSubtract h1.1, by assumption⟩
+  all_goals assumption
+
+theorem edge_graphSubtract {g1 g2 : Graph} (k1 : Sorted (vertices g1)) (k2 : Sorted (vertices g2))
+    (n1 : ∀ p ∈ g1, Sorted p.2) (n2 : ∀ p ∈ g2, Sorted p.2) {x y : Nat} :
+    Edge (graphSubtract g1 g2) x y ↔ Edge g1 x y ∧ ¬ Edge g2 x y := by
+  fun_induction graphSubtract g1 g2
+  · simp
+  · simp
+  · rename_i e1 t1 h1 e2 t2 ih
+    simp [sorted_cons] at k1 k2
+    have ih := ih k1.2 k2.2 (fun p hp => n1 p (by simp [hp])) (fun p hp => n2 p (by simp [hp]))
+    simp [ih, mem_ordSubtract (n1 (h1, e1) (by simp)) (n2 (h1, e2) (by simp))]
+    have a1 : ∀ z, Edge t1 h1 z → False := fun z e => by have := k1.1 _ e.src; omega
+    have a2 : ∀ z, Edge t2 h1 z → False := fun z e => by have := k2.1 _ e.src; omega
+    grind
+  · rename_i h1 e1 t1 h2 e2 t2 hne hlt ih
+    simp [sorted_cons] at k1 k2
+    have ih := ih k1.2 (by simp [sorted_cons]; exact k2) (fun p hp => n1 p (by simp [hp])) n2
+    simp [ih]
+    have a2 : ∀ z, Edge t2 h1 z → False := fun z e => by have := k2.1 _ e.src; omega
+    grind
+  · rename_i h1 e1 t1 h2 e2 t2 hne hlt ih
+    simp [sorted_cons] at k1 k2
+    have ih := ih (by simp [sorted_cons]; exact k1) k2.2 n1 (fun p hp => n2 p (by simp [hp]))
+    simp [ih]
+    have a1 : ∀ z, Edge t1 h2 z → False := fun z e => by have := k1.1 _ e.src; omega
+    grind
+
+theorem addVerticesFixed_spec {g : Graph} (hg : WF g) (vs : List Nat) :
+    WF (addVerticesFixed g vs) ∧ (∀ v, v ∈ vertices (addVerticesFixed g vs) ↔ v ∈ vertices g ∨ v ∈ vs) ∧
+    ∀ x y, Edge (addVerticesFixed g vs) x y ↔ Edge g x y := by
+  simpa [addVerticesFixed] using addVerticesToSGraph_spec (sorted_sortNat vs) hg
+
+theorem addVertices_eq_fixed (g : Graph) {vs : List Nat} (h : vs.Nodup) :
+    addVertices g vs = addVerticesFixed g vs := by
+  simp [addVertices, addVerticesFixed, msortNat_eq_sortNat h]
+
+theorem addEdges_spec {g : Graph} (hg : WF g) (es : List (Nat × Nat)) :
+    WF (addEdges g es) ∧
+    (∀ v, v ∈ vertices (addEdges g es) ↔ v ∈ vertices g ∨ ∃ e ∈ es, v = e.1 ∨ v = e.2) ∧
+    ∀ x y, Edge (addEdges g es) x y ↔ Edge g x y ∨ (x, y) ∈ es := by
+  have h2 := vetu_spec [] es
+  have h := ugraphUnion_spec hg h2.2
+  refine ⟨h.1, ?_, ?_⟩
+  · intro v; rw [addEdges, pToSGraph_eq, h.2.1, vetu_vertices]; simp
+  · intro x y; rw [addEdges, pToSGraph_eq, h.2.2, h2.1]
+
+theorem delEdges_spec {g : Graph} (hg : WF g) (es : List (Nat × Nat)) :
+    WF (delEdges g es) ∧ vertices (delEdges g es) = vertices g ∧
+    ∀ x y, Edge (delEdges g es) x y ↔ Edge g x y ∧ (x, y) ∉ es := by
+  have h2 := vetu_spec [] es
+  have he : ∀ x y, Edge (delEdges g es) x y ↔ Edge g x y ∧ (x, y) ∉ es := by
+    intro x y
+    rw [delEdges, pToSGraph_eq, edge_graphSubtract hg.keys h2.2.keys hg.nbrs h2.2.nbrs, h2.1]
+  refine ⟨wf_iff.2 ⟨?_, nbrs_graphSubtract hg.nbrs, ?_⟩, vertices_graphSubtract _ _, he⟩
+  · rw [delEdges, vertices_graphSubtract]; exact hg.keys
+  · intro x y e
+    rw [delEdges, vertices_graphSubtract]; exact hg.dst ((he x y).1 e).1
+
+/-! ## complement -/
+
+theorem vertices_complementAux (g : Graph) (vs : List Nat) : vertices (complementAux g vs) = vertices g := by
+  fun_induction complementAux g vs <;> simp_all
+
+theorem mem_complementAux {g : Graph} {vs : List Nat} {x : Nat} {ns : List Nat} :
+    (x, ns) ∈ complementAux g vs ↔ ∃ e, (x, e) ∈ g ∧ ns = ordSubtract vs (ordAddElement e x) := by
+  fun_induction complementAux g vs <;> simp_all
+  grind
+
+theorem complement_spec {g : Graph} (hg : WF g) :
+    WF (complement g) ∧ vertices (complement g) = vertices g ∧
+    ∀ x y, Edge (complement g) x y ↔ x ∈ vertices g ∧ y ∈ vertices g ∧ x ≠ y ∧ ¬ Edge g x y := by
+  have hm : ∀ x e, (x, e) ∈ g → ∀ y, y ∈ ordSubtract (vertices g) (ordAddElement e x) ↔
+      y ∈ vertices g ∧ y ≠ x ∧ y ∉ e := by
+    intro x e h y
+    rw [mem_ordSubtract hg.keys (sorted_ordAddElement (hg.nbrs _ h)), mem_ordAddElement]
+    simp
+  have he : ∀ x y, Edge (complement g) x y ↔ x ∈ vertices g ∧ y ∈ vertices g ∧ x ≠ y ∧ ¬ Edge g x y := by
+    intro x y
+    simp only [Edge, complement, mem_complementAux]
+    constructor
+    · rintro ⟨ns, ⟨e, h1, rfl⟩, h3⟩
+      rw [hm x e h1] at h3
+      refine ⟨mem_vertices_of_mem h1, h3.1, fun h => h3.2.1 h.symm, ?_⟩
+      rintro ⟨e', h4, h5⟩
+      have := (neighbours_eq_some hg.keys).2 h1
+      rw [(neighbours_eq_some hg.keys).2 h4] at this
+      simp at this; subst this
+      exact h3.2.2 h5
+    · rintro ⟨h1, h2, h3, h4⟩
+      obtain ⟨e, h1⟩ := mem_vertices.1 h1
+      refine ⟨_, ⟨e, h1, rfl⟩, ?_⟩
+      rw [hm x e h1]
+      exact ⟨h2, fun h => h3 h.symm, fun h => h4 ⟨e, h1, h⟩⟩
+  refine ⟨wf_iff.2 ⟨?_, ?_, ?_⟩, vertices_complementAux _ _, he⟩
+  · rw [complement, vertices_complementAux]; exact hg.keys
+  · rintro ⟨x, ns⟩ hp
+    rw [complement, mem_complementAux] at hp
+    obtain ⟨e, _, rfl⟩ := hp
+    exact sorted_ordSubtract hg.keys
+  · intro x y e
+    rw [complement, vertices_complementAux]; exact ((he x y).1 e).2.1
+
+/-! ## compose -/
+
+theorem mem_compose1 {ns : List Nat} {g2 : Graph} {acc : List Nat} (hns : Sorted ns) (hk : Sorted (vertices g2))
+    {z : Nat} : z ∈ compose1 ns g2 acc ↔ z ∈ acc ∨ ∃ y ∈ ns, Edge g2 y z := by
+  fun_induction compose1 ns g2 acc
+  · simp
+  · simp
+  · rename_i v1 vs1 v2 n2 g2 soFar hlt ih
+    simp [sorted_cons] at hns hk
+    rw [ih hns.2 (by simp [sorted_cons]; exact hk)]
+    have a : ∀ z, Edge g2 v1 z → False := fun z e => by have := hk.1 _ e.src; omega
+    simp; grind
+  · rename_i vs1 v1 n2 g2 soFar _ ih
+    simp [sorted_cons] at hns hk
+    rw [ih hns.2 hk.2]
+    have a : ∀ z, Edge g2 v1 z → False := fun z e => by have := hk.1 _ e.src; omega
+    have b : ∀ y ∈ vs1, y ≠ v1 := fun y hy => by have := hns.1 _ hy; omega
+    simp [mem_ordUnion]; grind
+  · rename_i v1 vs1 v2 n2 g2 soFar hlt hne ih
+    simp [sorted_cons] at hns hk
+    rw [ih (by simp [sorted_cons]; exact hns) hk.2]
+    have b : ∀ y ∈ vs1, y ≠ v2 := fun y hy => by have := hns.1 _ hy; omega
+    simp; grind
+
+theorem sorted_compose1 {ns : List Nat} {g2 : Graph} {acc : List Nat} (hacc : Sorted acc)
+    (hn : ∀ p ∈ g2, Sorted p.2) : Sorted (compose1 ns g2 acc) := by
+  fun_induction compose1 ns g2 acc <;> simp_all
+  · rename_i ih; exact ih (sorted_ordUnion hn.1 hacc)
+
+theorem vertices_composeAux (vs : List Nat) (g1 g2 : Graph) : vertices (composeAux vs g1 g2) = vs := by
+  fun_induction composeAux vs g1 g2 <;> simp_all
+
+
+theorem nbrs_composeAux {vs : List Nat} {g1 g2 : Graph} (hn : ∀ p ∈ g2, Sorted p.2) :
+    ∀ p ∈ composeAux vs g1 g2, Sorted p.2 := by
+  fun_induction composeAux vs g1 g2
+  · simp
+  · rename_i ih
+    intro p hp; simp at hp
+    rcases hp with rfl | hp
+    · exact sorted_nil
+    · exact ih hn p hp
+  · rename_i ih
+    intro p hp; simp at hp
+    rcases hp with rfl | hp
+    · exact sorted_compose1 sorted_nil hn
+    · exact ih hn p hp
+  · rename_i ih
+    intro p hp; simp at hp
+    rcases hp with rfl | hp
+    · exact sorted_nil
+    · exact ih hn p hp
+
+theorem edge_composeAux {vs : List Nat} {g1 g2 : Graph} (hvs : Sorted vs) (k1 : Sorted (vertices g1))
+    (hsub : ∀ v ∈ vertices g1, v ∈ vs) (n1 : ∀ p ∈ g1, Sorted p.2) (k2 : Sorted (vertices g2)) {x z : Nat} :
+    Edge (composeAux vs g1 g2) x z ↔ ∃ y, Edge g1 x y ∧ Edge g2 y z := by
+  fun_induction composeAux vs g1 g2
+  · rename_i g1 g2
+    cases g1 with
+    | nil => simp
+    | cons p g1 => obtain ⟨v, ns⟩ := p; have := hsub v (by simp); simp at this
+  · rename_i v vs g2 ih
+    simp [sorted_cons] at hvs
+    simp [ih hvs.2 (by simp) (by simp) (by simp) k2]
+  · rename_i vs v ns g1 g2 ih
+    simp [sorted_cons] at hvs k1
+    have hsub' : ∀ w ∈ vertices g1, w ∈ vs := by
+      intro w hw
+      have h1 := hsub w (by simp [hw])
+      have := k1.1 _ hw
+      simp at h1; rcases h1 with h1 | h1
+      · omega
+      · exact h1
+    have ih := ih hvs.2 k1.2 hsub' (fun p hp => n1 p (by simp [hp])) k2
+    simp [ih, mem_compose1 (n1 (v, ns) (by simp)) k2]
+    grind
+  · rename_i v vs v' ns g1 g2 hne ih
+    simp [sorted_cons] at hvs k1
+    have hv' : v' ∈ vs := by
+      have h1 := hsub v' (by simp)
+      simp at h1; rcases h1 with h1 | h1
+      · exact absurd h1.symm hne
+      · exact h1
+    have hsub' : ∀ w ∈ vertices ((v', ns) :: g1), w ∈ vs := by
+      intro w hw
+      have h1 := hsub w hw
+      simp at hw h1
+      have := hvs.1 _ hv'
+      rcases hw with rfl | hw
+      · exact hv'
+      · have := k1.1 _ hw
+        rcases h1 with h1 | h1
+        · omega
+        · exact h1
+    have ih := ih hvs.2 (by simp [sorted_cons]; exact k1) hsub' n1 k2
+    simp [ih]
+
+theorem compose_spec {g1 g2 : Graph} (h1 : WF g1) (h2 : WF g2) :
+    WF (compose g1 g2) ∧ (∀ v, v ∈ vertices (compose g1 g2) ↔ v ∈ vertices g1 ∨ v ∈ vertices g2) ∧
+    ∀ x z, Edge (compose g1 g2) x z ↔ ∃ y, Edge g1 x y ∧ Edge g2 y z := by
+  have hs := sorted_ordUnion h1.keys h2.keys
+  have hv : ∀ v, v ∈ vertices (compose g1 g2) ↔ v ∈ vertices g1 ∨ v ∈ vertices g2 := by
+    intro v; rw [compose, vertices_composeAux, mem_ordUnion]
+  have he : ∀ x z, Edge (compose g1 g2) x z ↔ ∃ y, Edge g1 x y ∧ Edge g2 y z := by
+    intro x z
+    exact edge_composeAux hs h1.keys (fun v hv => mem_ordUnion.2 (Or.inl hv)) h1.nbrs h2.keys
+  refine ⟨wf_iff.2 ⟨?_, nbrs_composeAux h2.nbrs, ?_⟩, hv, he⟩
+  · rw [compose, vertices_composeAux]; exact hs
+  · intro x z e
+    obtain ⟨y, _, e2⟩ := (he x z).1 e
+    rw [hv]; exact Or.inr (h2.dst e2)
 
 end Scryer.UGraph
